@@ -18,10 +18,13 @@ def par_monitors(ctx, jobs, threads=4, timeout=2400, heap="5g"):
     jobs = [j for j in jobs if os.path.exists(j[1]) and os.path.getsize(j[1]) > 0]
     results = {}
 
+    # same JVM options as framework.tlc, plus a cap on GC threads (several JVMs run side by side)
+    jopts = "%s -XX:ParallelGCThreads=2 -Xmx%s -DTLA-Library=%s -Dtlc2.tool.queue.IStateQueue=StateDeque" % (fw.JAVA_BASE, heap, fw.LIB)
+
     def run(job):
         name, trace = job[0], job[1]
         return name, fw.tlc(name, os.path.join(fw.SPEC, SPEC), MON[0], MON[1], ctx.rundir, workers=1, timeout=timeout,
-                            env={"TRACE": trace}, deque=True, heap=heap)
+                            env={"TRACE": trace, "JAVA_TOOL_OPTIONS": jopts}, deque=True, heap=heap)
 
     with ThreadPoolExecutor(max_workers=threads) as ex:
         for name, r in ex.map(run, jobs):
@@ -256,11 +259,11 @@ def run(ctx):
     prim = [c for c in allc if c["op"] == "prim"]
     big = [c for c in allc if c["op"] != "prim"]
     if ctx.quick:
-        # quick tier: every third non-primitive case of each family (rotating with the seed)
+        # quick tier: every second non-primitive case of each family (rotating with the seed)
         fams = {}
         for c in big:
             fams.setdefault(c["fam"], []).append(c)
-        big = [c for f in sorted(fams) for i, c in enumerate(fams[f]) if (i + ctx.seed) % 3 == 0 or f == "gspecial"]
+        big = [c for f in sorted(fams) for i, c in enumerate(fams[f]) if (i + ctx.seed) % 2 == 0 or f == "gspecial"]
     wit = witness_cases(ctx, ("std",))
     pbig = write_cases(ctx.path("cases-big.ndjson"), wit + big)
     pprim = write_cases(ctx.path("cases-prim.ndjson"), prim)
@@ -300,11 +303,7 @@ def run(ctx):
     chk = sum(v.get("log2bounds", 0) for v in verdicts.values())
     if chk and und * 20 > chk:
         raise fw.ToolError("vacuity: %d of %d log2 bounds could not be decided by the enclosure" % (und, chk))
-    stale = fw.stale_findings_check(ctx, [k["id"] for k in ctx.known if "C12" in k.get("properties", []) and "witness" in k])
-    # an open finding whose witness does not fail any more is reported, not fatal (the entry is flipped by the maintainer)
-    for s in stale:
-        fw.log("NOTE stale finding %s: its witness no longer fails on this tree" % s)
-    return ctx.finish(
+    rc = ctx.finish(
         rule="one event = one operation on one argument tuple executed in every call form (a `prim` event = all operations on "
              "one 16-bit value incl. its gcd partners); distinct = distinct (op, operands, outcomes); non-trivial = operands "
              "other than 0 and 1",
@@ -312,7 +311,7 @@ def run(ctx):
                     "family x size x shape (Gen_C12) incl. every u8 / u16 value; every recorded call is decided by the "
                     "relations of NumTheoryDef (Trace_C12); log2 bounds by a rigorous interval enclosure, f32 patterns are "
                     "sampled on a lattice, not enumerated",
-        extra={"log2_bounds_checked": chk, "log2_bounds_undecided": und, "stale_findings": stale},
+        extra={"log2_bounds_checked": chk, "log2_bounds_undecided": und},
         required_cover=["op:gcd", "op:root", "op:ilog", "op:remove", "op:log2", "op:prim", "prim:u8", "prim:u16", "build:nostd",
                         "profile:release", "gcd:0-0", "gcd:one-zero", "gcd:equal", "gcd:one-divides-other", "gcd:both-large",
                         "gcd:large-with-word", "gcd:large-with-dword", "gcd:small", "gcd:trailing-zero-words",
@@ -324,6 +323,10 @@ def run(ctx):
                         "ilog:base-word", "ilog:base-dword", "ilog:base-large", "remove:degenerate", "remove:k=0", "remove:k>=2",
                         "remove:factor-pow2", "remove:factor-general", "log2:int", "log2:f32", "log2:f64", "log2:fbig",
                         "log2:rbig", "log2:exact-bounds", "log2:infinite-bound", "log2:large-int", "forms>=8-agree"])
+    # an open finding whose witness does not fail any more is reported, not fatal (the maintainer flips the entry)
+    for s in fw.stale_findings_check(ctx, [k["id"] for k in ctx.known if "C12" in k.get("properties", []) and "witness" in k]):
+        fw.log("NOTE stale finding %s: its witness no longer fails on this tree" % s)
+    return rc
 
 
 # ------------------------------------------------------------------ self test
